@@ -145,6 +145,7 @@ func runC11w9(c *hx.Ctx, h c11w9Case) bool {
 	// the client begins to read
 	var got []byte
 	var gmu sync.Mutex
+	var writersDone int64
 	rdone := make(chan struct{})
 	startReader := func() {
 		go func() {
@@ -167,6 +168,9 @@ func runC11w9(c *hx.Ctx, h c11w9Case) bool {
 				gmu.Lock()
 				got = append(got, buf[:k]...)
 				gmu.Unlock()
+				if ne, ok := err.(net.Error); ok && ne.Timeout() && n < len(all) && atomic.LoadInt64(&writersDone) == 0 {
+					continue // a loaded machine: the writers are not through yet
+				}
 				if err != nil {
 					return
 				}
@@ -252,6 +256,7 @@ func runC11w9(c *hx.Ctx, h c11w9Case) bool {
 	case <-w3done:
 	case <-time.After(5 * time.Second):
 	}
+	atomic.StoreInt64(&writersDone, 1)
 	<-rdone
 	old.Stop()
 	select {
